@@ -912,6 +912,16 @@ static void exec_line(char *line) {
         struct rlimit rl = {strtoul(tok[1], NULL, 10), strtoul(tok[1], NULL, 10)};
         signal(SIGXFSZ, SIG_IGN);
         setrlimit(RLIMIT_FSIZE, &rl);
+    } else if (!strcmp(c, "bindself")) {
+        /* bindself <srcpath-hex> <name-hex> : bind-mount a file over /proc/<own pid>/<name> (private mount namespace) */
+        char *src = decode_bytes(tok[1], NULL), *nm = decode_bytes(tok[2], NULL);
+        char dst[256];
+        snprintf(dst, sizeof dst, "/proc/%d/%s", getpid(), nm);
+        if (mount(src, dst, NULL, MS_BIND, NULL) != 0) {
+            fprintf(stderr, "vdrive: bindself %s -> %s failed: %s\n", src, dst, strerror(errno));
+            exit(3);
+        }
+        free(src); free(nm);
     } else if (!strcmp(c, "fsizelimit")) {
         /* file size limit with SIGXFSZ left at its default disposition (fatal) */
         struct rlimit rl = {strtoul(tok[1], NULL, 10), strtoul(tok[1], NULL, 10)};
